@@ -347,7 +347,9 @@ func judgeHost(c *caseSpec, hr *hostRec, out runOut) []finding {
 func runResumeHost(rep *mon.Reporter, c *caseSpec) bool {
 	rs, a := c.Resume, &c.Agents[0]
 	rec := &recorder{byCtx: true, orphan: &runRec{}}
-	w := func(run string) witness { return witness{Agent: "host/" + a.Checker + "/" + a.Wiring, Run: run, Case: c} }
+	w := func(run string) witness {
+		return witness{Agent: "host/" + a.Checker + "/" + a.Wiring, Run: run, Case: c}
+	}
 	var ma *host.MultiAgent
 	var err error
 	if p := mon.Safe(func() { ma, err = buildHost(c, rec) }); p != nil {
